@@ -14,6 +14,7 @@
 from __future__ import annotations
 
 import json
+import os
 import re
 import time
 
@@ -132,8 +133,11 @@ def run(ctx: Ctx):
         for cfg, flt, stride in plan(ctx):
             t0 = time.time()
             n0 = ctx.cov["evaluations"]
+            only = os.environ.get("C08_SCENARIOS")          # development aid: restrict the scenarios
             for name, sc in R.S.items():
                 if not flt(sc) or cfg["backend"] not in sc["backends"]:
+                    continue
+                if only and name not in only.split(","):
                     continue
                 if sc["needs_retain"] and not cfg["retain"]:
                     continue
